@@ -12,7 +12,7 @@ pub use diff_props::*;
 pub mod c14;
 pub use c14::C14;
 pub mod engb_props;
-pub use engb_props::{C02, C04, C07, C08, C12, C13};
+pub use engb_props::{C02, C03, C04, C07, C08, C12, C13};
 pub mod c06;
 pub use c06::C06;
 pub mod c09;
